@@ -149,6 +149,26 @@ example : (∃ r ∈ nullBlob.results, ∃ e ∈ r.levels, e.2.corr = .null) ∧
     ∃ h b', toH5 nullBlob = .ok h ∧ ofH5 h = .ok b' ∧ b' ≠ nullBlob :=
   ⟨by decide, _, _, rfl, rfl, by decide⟩
 
+/-- converse of `h5_roundtrip` (the hypotheses are not an artefact): if the
+HDF5 round trip reproduces a blob exactly, then no number in it is `null`,
+every level record has the three runner-up lists with equal length ≤
+`n_runners_up` when `directly_assigned` and none of them otherwise, and all
+records carry the same levels with the same `directly_assigned` flags -/
+theorem h5_roundtrip_only_if (b : Blob) (h : H5) (h1 : toH5 b = .ok h) (h2 : ofH5 h = .ok b) :
+    (∀ r ∈ b.results, ∀ e ∈ r.levels,
+      e.2.prob ≠ .null ∧ e.2.corr ≠ .null ∧ e.2.agg ≠ .null ∧ e.2.runnerShape b.nRunners) ∧
+    (∀ r₁ ∈ b.results, ∀ r₂ ∈ b.results,
+      r₁.levels.map (fun e => (e.1, e.2.direct)) = r₂.levels.map (fun e => (e.1, e.2.direct))) := by
+  obtain ⟨hshape, hflags⟩ := ofH5_toH5_shape h1 h2
+  constructor
+  · intro r hr e he
+    obtain ⟨g1, g2, g3⟩ := h5_never_null b b h h1 h2 r hr e he
+    exact ⟨g1, g2, g3, hshape r hr e he⟩
+  · intro r₁ hr₁ r₂ hr₂
+    rw [hflags r₁ hr₁, hflags r₂ hr₂]
+
+example : ∃ h, toH5 sampleBlob = .ok h ∧ ofH5 h = .ok sampleBlob := ⟨_, rfl, by decide⟩
+
 /-- the three files tell the same story: the CSV written from the blob read
 back from HDF5 is the CSV written from the JSON blob -/
 theorem csv_after_h5 (b : Blob) (hinv : outInv b = true) (taint : List Lvl) (ck : ConfKey) :
@@ -387,5 +407,17 @@ theorem reorder_query_order (rs : List Record) (order : List StrId)
 
 example : ∃ rs', reorder sampleBlob.results [51, 50] = .ok rs' ∧ rs'.map (·.cellId) = [51, 50] :=
   ⟨_, rfl, rfl⟩
+
+/-- … and when the cell ids of the results are distinct and the query lists
+each of them once, nothing is lost or duplicated: the output is a permutation
+of the results (the one that puts them in query order) -/
+theorem reorder_permutation (rs : List Record) (order : List StrId)
+    (hids : (rs.map (·.cellId)).Nodup) (hord : order.Nodup)
+    (h1 : ∀ c ∈ order, c ∈ rs.map (·.cellId)) (h2 : ∀ r ∈ rs, r.cellId ∈ order) :
+    ∃ rs', reorder rs order = .ok rs' ∧ rs'.map (·.cellId) = order ∧ rs'.Perm rs := by
+  obtain ⟨rs', e1, e2, e3⟩ := reorder_ok rs order h1
+  exact ⟨rs', e1, e2, reorder_perm rs rs' order hids hord h2 e1 e2 e3⟩
+
+example : (sampleBlob.results.map (·.cellId)).Nodup ∧ [51, 50].Nodup := by decide
 
 end CTM.C15
